@@ -24,6 +24,7 @@ RULE = (
     "rel_tol 1e-12; ValueError for non-positive length, absent track, note-less track. Metamorphic: "
     "the tick-bounded call equals the time-bounded call with the converted bounds. Non-trivial iff >= 1 "
     "bound coincides exactly with a note time and >= 1 note is excluded; distinct = distinct (chart, call)."
+    " An omitted end is additionally required to agree (C01's tolerance) with the exact time of the latest end tick of the WRITTEN notes."
 )
 ASSUMPTIONS = [
     "only the argument combinations the overloads allow (mixing tick and time trips an assert by design); "
